@@ -29,6 +29,7 @@ var allKinds = []string{"Create", "Put", "Replace", "Delete", "Rebuild"}
 type unit struct {
 	sw    sweep
 	first int // index of the first operation of the subtree
+	ts    *txSweep
 }
 
 type worker struct {
@@ -43,6 +44,16 @@ type worker struct {
 	faults    int
 	fulls     int
 	lastFired bool
+	txs       int
+}
+
+// txSweep: multi-operation transactions (store.Update grouping txLen operations).
+type txSweep struct {
+	name      string
+	ids       []string
+	kinds     []string
+	preambles [][]op
+	txLen     int
 }
 
 func (w *worker) restore(state []byte) {
@@ -64,7 +75,7 @@ func (w *worker) snapshot() []byte {
 }
 
 func resetCfg(ids []string, full []query) rt.M {
-	return rt.M{"ids": ids, "glob": globTable(), "grid": gridM(full), "gridb": gridM(basicGrid)}
+	return rt.M{"ids": ids, "glob": globTable(), "grid": gridM(full), "gridb": gridM(basicGrid), "gridt": gridM(txGrid)}
 }
 
 // edge executes one operation on the store file restored to `state`:
@@ -87,11 +98,19 @@ func (w *worker) edge(state []byte, o op, v, pre, post, failAt int) (string, []b
 		ev["fired"], ev["nw"] = e.fs.fired, e.fs.writes
 		w.lastFired = e.fs.fired
 	}
+	w.observe(e, ev)
+	w.t.Event("Op", ev)
+	return res, w.snapshot()
+}
+
+// observe: observations on the handle that ran the transaction, then close, reopen,
+// observe again, raw dump, full grid on the first visit of this content; closes the store.
+func (w *worker) observe(e *env, ev rt.M) {
 	ev["get"] = e.get(w.sw.ids)
 	ev["lists"] = e.lists(basicGrid)
 	e.close()
 	// reopen after the (committed or rolled back) transaction
-	e, err = openEnv(w.file, false)
+	e, err := openEnv(w.file, false)
 	if err != nil {
 		rt.Fatalf("reopen: %v", err)
 	}
@@ -107,8 +126,66 @@ func (w *worker) edge(state []byte, o op, v, pre, post, failAt int) (string, []b
 		ev["full"] = []any{}
 	}
 	e.close()
-	w.t.Event("Op", ev)
-	return res, w.snapshot()
+}
+
+// txEdge executes one multi-operation transaction on the store file restored to `state`.
+func (w *worker) txEdge(state []byte, ops []op, vbase, pre, post, failAt int, abort bool) {
+	w.restore(state)
+	e, err := openEnv(w.file, failAt != 0)
+	if err != nil {
+		rt.Fatalf("open: %v", err)
+	}
+	if e.fs != nil {
+		e.fs.set(failAt)
+	}
+	res := e.runTx(w.t, w.sw.ids, ops, vbase, pre, failAt, abort)
+	ev := rt.M{"post": post, "abort": abort, "fired": false, "nw": -1, "res": res}
+	w.lastFired = false
+	if e.fs != nil {
+		ev["fired"], ev["nw"] = e.fs.fired, e.fs.writes
+		w.lastFired = e.fs.fired
+	}
+	w.observe(e, ev)
+	w.t.Event("TxEnd", ev)
+	w.txs++
+}
+
+// txUnit: from each pre-state (built by a preamble of single operations) every transaction
+// of txLen operations whose first operation is ops[first]; at the first pre-state also the
+// deliberately aborted variant, every FailAt(k) across the transaction's writes and a failing commit.
+func (w *worker) txUnit(ts txSweep, first int) {
+	for pi, pre := range ts.preambles {
+		var state []byte
+		for i, o := range pre {
+			_, state = w.edge(state, o, i+1, i+1, i+2, 0)
+			w.edges++
+		}
+		slot := len(pre) + 1
+		var rec func(seq []op)
+		rec = func(seq []op) {
+			if len(seq) < ts.txLen {
+				for _, o := range w.ops {
+					rec(append(seq[:len(seq):len(seq)], o))
+				}
+				return
+			}
+			vb := 10 * (len(pre) + 1)
+			w.txEdge(state, seq, vb, slot, slot+1, 0, false)
+			if pi == 0 {
+				w.txEdge(state, seq, vb, slot, slot+1, 0, true)
+				for k := 1; k <= 64; k++ {
+					w.txEdge(state, seq, vb, slot, slot+1, k, false)
+					w.faults++
+					if !w.lastFired {
+						break
+					}
+				}
+				w.txEdge(state, seq, vb, slot, slot+1, -1, false)
+				w.faults++
+			}
+		}
+		rec([]op{w.ops[first]})
+	}
 }
 
 func (w *worker) node(state []byte, depth int, only int) {
@@ -157,20 +234,33 @@ func Run(r *rt.Run) error {
 	sampleTrace(r, tmp)
 
 	var sweeps []sweep
-	nRandom, randLen := 150, 40
+	var txSweeps []txSweep
+	nRandom, randLen := 120, 40
+	cr := func(id, a string) op { return op{"Create", id, a} }
+	cpd := []string{"Create", "Put", "Delete", "Rebuild"}
 	if r.Thorough() {
 		sweeps = []sweep{
 			{"plain3", []string{"a", "ab", "b"}, allKinds, 4, 2},
-			{"dots", []string{".", "..", "a"}, allKinds, 3, 2},
+			{"empty", []string{"", "..", "a"}, allKinds, 3, 2},
+			{"dots4", []string{"", ".", "..", "a"}, allKinds, 2, 1},
 			{"deep2", []string{"a", "ab"}, []string{"Put", "Replace", "Delete", "Rebuild"}, 5, 1},
-			{"deepest", []string{"a", "ab"}, []string{"Put", "Delete", "Rebuild"}, 6, 0},
+			{"deepest", []string{"a", "ab"}, []string{"Put", "Delete"}, 6, 0},
+		}
+		txSweeps = []txSweep{
+			{"tx2", []string{"", "a", "ab"}, allKinds, [][]op{{}, {cr("a", "x")}, {cr("a", "y")}, {cr("ab", "x")}, {cr("", "y")}, {cr("a", "x"), cr("ab", "x")}}, 2},
+			{"tx3", []string{"a", "ab"}, cpd, [][]op{{}, {cr("a", "x")}}, 3},
 		}
 		nRandom, randLen = 1000, 60
 	} else {
 		sweeps = []sweep{
 			{"plain3", []string{"a", "ab", "b"}, allKinds, 3, 2},
 			{"plain2", []string{"a", "ab"}, []string{"Put", "Replace", "Delete", "Rebuild"}, 4, 1},
-			{"dots", []string{".", "..", "a"}, allKinds, 3, 1},
+			{"empty", []string{"", "..", "a"}, allKinds, 3, 1},
+			{"dots4", []string{"", ".", "..", "a"}, allKinds, 2, 0},
+		}
+		txSweeps = []txSweep{
+			{"tx2", []string{"a", "ab"}, allKinds, [][]op{{}, {cr("a", "x")}, {cr("a", "y")}, {cr("ab", "x")}, {cr("a", "x"), cr("ab", "x")}}, 2},
+			{"tx2e", []string{"", "a"}, cpd, [][]op{{}, {cr("", "x")}}, 2},
 		}
 	}
 	if v := os.Getenv("C15_NRANDOM"); v != "" {
@@ -185,14 +275,20 @@ func Run(r *rt.Run) error {
 	var units []unit
 	for _, sw := range sweeps {
 		for i := range opsOver(sw.ids, sw.kinds) {
-			units = append(units, unit{sw, i})
+			units = append(units, unit{sw: sw, first: i})
+		}
+	}
+	for k := range txSweeps {
+		ts := &txSweeps[k]
+		for i := range opsOver(ts.ids, ts.kinds) {
+			units = append(units, unit{sw: sweep{name: ts.name, ids: ts.ids, kinds: ts.kinds}, first: i, ts: ts})
 		}
 	}
 	traces := make([]*rt.Trace, nFiles)
 	for i := range traces {
 		traces[i] = r.NewTrace(fmt.Sprintf("tree%02d", i))
 	}
-	type stat struct{ edges, faults, fulls int }
+	type stat struct{ edges, faults, fulls, txs int }
 	stats := make([]stat, nFiles)
 	var wg sync.WaitGroup
 	sem := make(chan struct{}, 12)
@@ -210,7 +306,12 @@ func Run(r *rt.Run) error {
 				w := &worker{t: traces[f], dir: dir, file: filepath.Join(dir, "kapacitor.db"), full: full,
 					seenFull: seen, ops: opsOver(u.sw.ids, u.sw.kinds), sw: u.sw}
 				w.t.Reset(resetCfg(u.sw.ids, full))
-				w.node(nil, 0, u.first)
+				if u.ts != nil {
+					w.txUnit(*u.ts, u.first)
+				} else {
+					w.node(nil, 0, u.first)
+				}
+				stats[f].txs += w.txs
 				stats[f].edges += w.edges
 				stats[f].faults += w.faults
 				stats[f].fulls += w.fulls
@@ -224,6 +325,7 @@ func Run(r *rt.Run) error {
 		tot.edges += s.edges
 		tot.faults += s.faults
 		tot.fulls += s.fulls
+		tot.txs += s.txs
 	}
 
 	// seeded random long histories over all five IDs on one open handle, with random
@@ -257,7 +359,11 @@ func Run(r *rt.Run) error {
 	for _, s := range sweeps {
 		sw = append(sw, fmt.Sprintf("%s: ids=%v ops=%d depth<=%d faults at depth<%d", s.name, s.ids, len(opsOver(s.ids, s.kinds)), s.depth, s.faultDepth))
 	}
+	for _, s := range txSweeps {
+		sw = append(sw, fmt.Sprintf("%s: ids=%v ops=%d transactions of %d operations from %d pre-states (abort/FailAt(k)/failing-commit variants at the first)", s.name, s.ids, len(opsOver(s.ids, s.kinds)), s.txLen, len(s.preambles)))
+	}
 	r.Extra["sweeps"] = sw
+	r.Extra["transactions"] = tot.txs
 	r.Extra["tree_edges"] = tot.edges
 	r.Extra["fault_runs"] = tot.faults
 	r.Extra["full_grid_observations"] = tot.fulls
@@ -291,7 +397,7 @@ func sampleTrace(r *rt.Run, tmp string) {
 	t := r.NewTrace("sample")
 	small := []query{{"id", "a*", 0, 1, false}, {"a", "", 1, -1, true}}
 	w := &worker{t: t, file: filepath.Join(tmp, "sample.db"), full: small, seenFull: map[string]bool{},
-		sw: sweep{name: "sample", ids: []string{"a", "ab"}}}
+		sw: sweep{name: "sample", ids: []string{"", "a", "ab"}}}
 	t.Reset(resetCfg(w.sw.ids, small))
 	var st []byte
 	_, st = w.edge(st, op{"Create", "a", "y"}, 1, 1, 2, 0)
@@ -299,10 +405,13 @@ func sampleTrace(r *rt.Run, tmp string) {
 	w.edge(st, op{"Replace", "a", "x"}, 3, 3, 4, 2)
 	_, st = w.edge(st, op{"Replace", "a", "x"}, 3, 3, 4, 0)
 	w.edge(st, op{"Delete", "ab", ""}, 4, 4, 5, -1)
-	w.edge(st, op{"Delete", "ab", ""}, 4, 4, 5, 0)
+	_, st = w.edge(st, op{"Delete", "ab", ""}, 4, 4, 5, 0)
+	w.txEdge(st, []op{{"Create", "", "y"}, {"Delete", "a", ""}, {"Rebuild", "", ""}}, 50, 5, 6, 0, false)
+	w.txEdge(st, []op{{"Put", "ab", "x"}, {"Create", "a", "y"}}, 50, 5, 6, 0, false)
 }
 
-// randomHistory: one linear history (pre = post = 1) on a single open handle.
+// randomHistory: one linear history (pre = post = 1) on a single open handle; one step in
+// five is a multi-operation transaction (2-3 operations, sometimes aborted deliberately).
 func randomHistory(t *rt.Trace, rng *rand.Rand, file string, full []query, n int) int {
 	os.Remove(file)
 	wrapAll := rng.Intn(2) == 0 // half of the histories run entirely through the (counting) wrapper
@@ -312,16 +421,27 @@ func randomHistory(t *rt.Trace, rng *rand.Rand, file string, full []query, n int
 		rt.Fatalf("open: %v", err)
 	}
 	ops := opsOver(allIDs, allKinds)
+	pick := func() op {
+		if rng.Intn(8) == 0 {
+			return op{"Rebuild", "", ""}
+		}
+		return ops[rng.Intn(len(ops))]
+	}
 	key := ""
 	for k := 1; k <= n; k++ {
-		o := ops[rng.Intn(len(ops))]
-		if rng.Intn(8) == 0 {
-			o = op{"Rebuild", "", ""}
+		var seq []op
+		abort := false
+		if rng.Intn(5) == 0 {
+			for i := 2 + rng.Intn(2); i > 0; i-- {
+				seq = append(seq, pick())
+			}
+			abort = rng.Intn(5) == 0
 		}
+		o := pick()
 		failAt := 0
 		if rng.Intn(4) == 0 {
 			failAt = 1 + rng.Intn(4)
-			if o.Kind == "Rebuild" {
+			if o.Kind == "Rebuild" || seq != nil {
 				failAt = 1 + rng.Intn(24)
 			}
 			if rng.Intn(5) == 0 {
@@ -338,9 +458,19 @@ func randomHistory(t *rt.Trace, rng *rand.Rand, file string, full []query, n int
 		if e.fs != nil {
 			e.fs.set(failAt)
 		}
-		res := e.apply(o, k)
-		ev := rt.M{"pre": 1, "post": 1, "op": o.Kind, "id": o.ID, "a": o.A, "v": k,
-			"failAt": failAt, "fired": false, "nw": -1, "res": res}
+		var ev rt.M
+		name := "Op"
+		if seq != nil {
+			name = "TxEnd"
+			res := e.runTx(t, allIDs, seq, 100*k, 1, failAt, abort)
+			ev = rt.M{"post": 1, "abort": abort, "fired": false, "nw": -1, "res": res}
+			key += fmt.Sprintf("T%v%d%v;", seq, failAt, abort)
+		} else {
+			res := e.apply(o, k)
+			ev = rt.M{"pre": 1, "post": 1, "op": o.Kind, "id": o.ID, "a": o.A, "v": k,
+				"failAt": failAt, "fired": false, "nw": -1, "res": res}
+			key += fmt.Sprintf("%s%d;", o, failAt)
+		}
 		if e.fs != nil {
 			ev["fired"], ev["nw"] = e.fs.fired, e.fs.writes
 		}
@@ -367,8 +497,7 @@ func randomHistory(t *rt.Trace, rng *rand.Rand, file string, full []query, n int
 		} else {
 			ev["full"] = []any{}
 		}
-		t.Event("Op", ev)
-		key += fmt.Sprintf("%s%d;", o, failAt)
+		t.Event(name, ev)
 	}
 	e.close()
 	t.Distinct(key)
